@@ -358,3 +358,9 @@ mod bidi_tests {
         assert!(!satisfy_bidi_rule(&str_chars!(L, NSM, NSM, L, EN, NSM)));
     }
 }
+
+#[cfg(precis_verif)]
+#[allow(missing_docs)]
+pub fn verif_bidi_class_name(cp: u32) -> String {
+    format!("{:?}", bidi_class_cp(cp))
+}
